@@ -212,10 +212,33 @@ def rule_hook_shape(check):
     check.expect(ok, R, R + "/bare-call", hir.loc(gp.rec), "no assignations: the bare hook call", "get_dd_paren_expr returns a bare call under other conditions")
 
 
+
+def _enum_value_sites(prog, suffix):
+    """[(fn, node)] where the unit variant `suffix` is used as a *value* (argument, initialiser, branch
+    result) - not as an operand of == / != and not inside a pattern"""
+    out = []
+    for f in prog.user_fns:
+        for n in f.nodes():
+            if n.get("k") != "Path":
+                continue
+            cp = (n.get("res") or {}).get("ctor_path") or ""
+            if not cp.endswith(suffix):
+                continue
+            par = f.parent(n)
+            while par is not None and par.get("k") in ("AddrOf", "DropTemps", "Use"):
+                par = f.parent(par)
+            if par is not None and (par.get("k") == "Binary" and par.get("op") in ("Eq", "Ne")):
+                continue
+            if par is not None and par.get("k") in ("Call", "MethodCall") and (par.get("callee") or {}).get("name") in ("eq", "ne"):
+                continue
+            out.append((f, n))
+    return out
+
+
 def rule_call_emission(check):
     """the behaviour-relevant half of CALL-SIGNATURE (registered under C01/C02): what the emitted
     `.call/.apply` is invoked on, with which receiver, which arguments and under which name"""
-    sub = _Only(check, "CALL-SIGNATURE", ("/this-arg", "/callee-object", "/member-obj", "/all-args-in-order", "/call-or-apply/", "/expand-arrays", "/FLOOR/call_or_apply", "/bare-callee-kept", "/callee-write/", "/FLOOR/callee writes"))
+    sub = _Only(check, "CALL-SIGNATURE", ("/this-arg", "/callee-object", "/member-obj", "/all-args-in-order", "/call-or-apply/", "/expand-arrays", "/expand-arrays-sites", "/FLOOR/call_or_apply", "/bare-callee-kept", "/callee-write/", "/FLOOR/callee writes"))
     rule_call_signature(sub)
 
 
@@ -335,6 +358,10 @@ def rule_call_signature(check):
         init = hir.peel(pn[0]["origin"][1])
         dflt = hir.is_call(init) and (hir.callee_name(init) or init.get("method")) == "unwrap_or" and hir.lit_value(hir.call_args(init)[1]) == "call"
     check.expect(ok and dflt, R, R + "/expand-arrays", hir.loc(g.rec), "array arguments are expanded iff the call goes through .apply (default .call)", "array expansion is not tied to `.apply` (default `.call`): the hook's argument list does not match the call")
+    # ... and nowhere else: every other site hands on its own parameter or says No
+    yes_sites = _enum_value_sites(prog, "ExpandArrays::Yes")
+    stray = [(f_, n_) for f_, n_ in yes_sites if f_ is not g]
+    check.expect(bool(yes_sites) and not stray, R, R + "/expand-arrays-sites", hir.loc(stray[0][1]) if stray else hir.loc(g.rec), "ExpandArrays::Yes is produced only by the `.apply` test in %s" % g.name, "ExpandArrays::Yes is passed in %s: an array-literal operand that is not an `.apply` argument list is split into its elements (the hook no longer receives the operand)" % sorted({f_.name for f_, _ in stray}))
     # `.call` vs `.apply` of the original call is carried to the emitted call: a function that has a
     # `call_or_apply` parameter forwards it, and on the prototype-only path (functions reachable only
     # from replace_prototype_call_or_apply) the value handed on is the original property name
@@ -499,6 +526,10 @@ def rule_spread_once(check):
             el = _ctor_name(hir.peel(n["else"]))
             ok = (th or "").endswith("IdentKind::Spread") and (el or "").endswith("IdentKind::Expr")
     check.expect(ok, R, R + "/kind-from-operand", hir.loc(h.rec), "kind = Spread iff operand.spread.is_some()", "the ident kind is not derived from operand.spread.is_some()")
+    # IdentKind::Spread is produced only there (and consumed by comparison in the assignment builder)
+    sp_sites = _enum_value_sites(prog, "IdentKind::Spread")
+    stray = [(f_, n_) for f_, n_ in sp_sites if f_ is not h]
+    check.expect(bool(sp_sites) and not stray, R, R + "/spread-kind-sites", hir.loc(stray[0][1]) if stray else hir.loc(h.rec), "IdentKind::Spread is produced only from operand.spread.is_some()", "IdentKind::Spread is passed in %s for an operand that is not a spread element: it is captured as `[...operand]` and reported spread" % sorted({f_.name for f_, _ in stray}))
 
 
 # ---------------------------------------------------------------------------------------------
@@ -1028,3 +1059,41 @@ def _ctor_args(pv, g, origins):
                 for a in node["args"]:
                     out |= pv.origins(f, a, root[4])
     return out
+
+
+TS_ONLY_FIELDS = {"optional": False, "definite": False, "declare": False, "type_ann": None, "type_args": None, "type_params": None, "return_type": None, "accessibility": None, "is_abstract": False, "is_override": False, "readonly": False}
+
+
+def rule_ts_flags(check):
+    """TS-FLAGS (C08): constructed nodes never carry TypeScript-only syntax."""
+    R = "TS-FLAGS"
+    check.rule(R, "every swc node the rewriter builds sets its TypeScript-only fields (Ident.optional, VarDeclarator.definite, VarDecl.declare, type annotations / arguments / parameters) to false / None or copies them from the input node it replaces: the printer would otherwise emit `x?`, `let x!`, `declare let`, which are not JavaScript")
+    prog = check.prog
+    n_fields = 0
+    for f in prog.user_fns:
+        for n in f.nodes():
+            if n.get("k") != "Struct":
+                continue
+            p_ = n["res"].get("path") or ""
+            if not (p_.startswith("swc_ecma_ast::") or p_.startswith("swc_ecma_visit::swc_ecma_ast::")):
+                continue
+            if p_.split("::")[-1] in ("OptChainExpr", "OptCall") and False:
+                continue
+            for fl in n["fields"]:
+                if fl["name"] not in TS_ONLY_FIELDS:
+                    continue
+                if p_.split("::")[-1] in ("OptChainExpr",) and fl["name"] == "optional":
+                    continue  # `?.` itself: JavaScript
+                n_fields += 1
+                e = hir.peel_transparent(fl["e"])
+                want = TS_ONLY_FIELDS[fl["name"]]
+                v = hir.lit_value(e)
+                is_none = e.get("k") == "Path" and (e["res"].get("ctor_path") or "").split("::")[-1] == "None"
+                copied = (hir.place(e) or "").split(".")[-1] == fl["name"]
+                ok = (want is False and v is False) or (want is None and is_none) or copied
+                key = "%s/%s/%s.%s" % (R, T.short(f), p_.split("::")[-1], fl["name"])
+                if ok:
+                    check.ok(R, key, hir.loc(fl["e"]), "%s = %s" % (fl["name"], "copied from the input node" if copied else want))
+                else:
+                    check.bad(R, key, hir.loc(fl["e"]), "%s builds a %s with %s = %s: TypeScript-only syntax in the output" % (f.name, p_.split("::")[-1], fl["name"], hir.describe(e)[:60]))
+    check.floor(R, "TypeScript-only fields of constructed nodes", n_fields, 8)
